@@ -51,6 +51,12 @@ func genC11(g *simrt.Tape, tier string) any {
 			c.DialFail = true
 			c.DialErr = []string{"", "", "eof", "closed", "timeout"}[g.Draw(5)]
 		}
+		if g.Draw(3) == 0 {
+			c.DialYields = 1 + g.Draw(6)
+		}
+		if g.Draw(6) == 0 {
+			c.DialMs = []int{1, 100, 2000}[g.Draw(3)]
+		}
 		nf := g.Draw(3)
 		for f := 0; f < nf; f++ {
 			c.Plan = append(c.Plan, simnet.FaultAt{Op: 1 + g.Draw(12), Kind: c11Kinds[g.Draw(len(c11Kinds))]})
@@ -291,6 +297,13 @@ func c11SweepFloor(tier string) []*ClientSc {
 		return sc
 	}
 	out := []*ClientSc{mk([]ReqBehav{{CloseAfter: true}, {}}, false)}
+	// the connection dies after the first reply; two callers; the re-dial takes a few scheduling points
+	{
+		sc := mk([]ReqBehav{{CloseAfter: true}, {}, {}}, false)
+		sc.Callers = []CallerSc{{Calls: []CallSc{{Kind: "request"}, {Kind: "request"}}}, {Calls: []CallSc{{Kind: "yield", N: 2}, {Kind: "request"}}}}
+		sc.Conns = []ConnSc{{}, {DialYields: 3}, {DialYields: 2}}
+		out = append(out, sc)
+	}
 	// a fault on the write of the first request, then the next call at every single-preemption schedule
 	for _, kind := range []string{"reset", "epipe", "short-write"} {
 		for op := 1; op <= 2; op++ {
